@@ -14,6 +14,7 @@ package main
 
 import (
 	"fmt"
+	"go/ast"
 	"sort"
 	"strings"
 
@@ -249,6 +250,93 @@ func (vc *VC) pairedObligations(fn *ssa.Function, ct *Contract) {
 			desc += "; but: " + strings.Join(bad, "; ")
 		}
 		ob := &Obligation{Name: fmt.Sprintf("%s/frame:paired.%d#0", fn.String(), ci), Kind: "frame", Func: fn.String(), Goal: goal, Desc: desc, Claimed: true, Tags: pc.Tags}
+		vc.sc.oblige(ob)
+	}
+}
+
+// Deferred-only obligation:
+//
+//   //@   deferredonly[Cxx] <local slice of func values>
+//
+// the function values stored in that local slice (restore closures handed back by a callee) are
+// used in this function in exactly one way: each is the callee of a `defer` executed directly in
+// this function, one defer per element, inside a range over the slice.  So they run when the
+// function returns, in reverse order of registration - the first one made is the last one run.
+// A closure that captures the slice, a direct call, or passing the slice on fails the obligation.
+// (`F/frame:deferredonly.<i>#0`)
+type DeferredOnlyClause struct {
+	Name string
+	Tags []string
+}
+
+func (vc *VC) deferredOnlyObligations(fn *ssa.Function, ct *Contract) {
+	for ci, dc := range ct.DeferredOnly {
+		// the SSA value(s) carrying that source name
+		vals := map[ssa.Value]bool{}
+		for _, b := range fn.Blocks {
+			for _, ins := range b.Instrs {
+				if d, ok := ins.(*ssa.DebugRef); ok && !d.IsAddr {
+					if id, ok := d.Expr.(*ast.Ident); ok && id.Name == dc.Name {
+						vals[d.X] = true
+					}
+				}
+			}
+		}
+		var bad []string
+		defers := 0
+		var checkElem func(v ssa.Value)
+		checkElem = func(v ssa.Value) { // v: one element (func value) of the slice
+			for _, r := range *v.Referrers() {
+				switch u := r.(type) {
+				case *ssa.DebugRef:
+				case *ssa.Defer:
+					if u.Call.Value == v {
+						defers++
+					} else {
+						bad = append(bad, "passed to a deferred call at "+vc.pos(u.Pos()))
+					}
+				default:
+					bad = append(bad, fmt.Sprintf("used by %T at %s", r, vc.pos(r.Pos())))
+				}
+			}
+		}
+		for v := range vals {
+			for _, r := range *v.Referrers() {
+				switch u := r.(type) {
+				case *ssa.DebugRef:
+				case *ssa.IndexAddr:
+					for _, rr := range *u.Referrers() {
+						if ld, ok := rr.(*ssa.UnOp); ok {
+							checkElem(ld)
+						} else if _, ok := rr.(*ssa.DebugRef); !ok {
+							bad = append(bad, fmt.Sprintf("element address used by %T at %s", rr, vc.pos(rr.Pos())))
+						}
+					}
+				case *ssa.Call:
+					if b, ok := u.Call.Value.(*ssa.Builtin); ok && b.Name() == "len" {
+						continue
+					}
+					bad = append(bad, "passed to a call at "+vc.pos(u.Pos()))
+				case *ssa.Extract, *ssa.Phi:
+				default:
+					bad = append(bad, fmt.Sprintf("used by %T at %s", r, vc.pos(r.Pos())))
+				}
+			}
+		}
+		goal := "true"
+		desc := "the function values in " + dc.Name + " are only deferred, one defer each, directly in this function"
+		if len(vals) == 0 {
+			goal = "false"
+			desc += "; but the function has no local of that name"
+		} else if len(bad) > 0 || defers == 0 {
+			goal = "false"
+			sort.Strings(bad)
+			if defers == 0 {
+				bad = append(bad, "no defer of an element found")
+			}
+			desc += "; but: " + strings.Join(dedupe(bad), "; ")
+		}
+		ob := &Obligation{Name: fmt.Sprintf("%s/frame:deferredonly.%d#0", fn.String(), ci), Kind: "frame", Func: fn.String(), Goal: goal, Desc: desc, Claimed: true, Tags: dc.Tags}
 		vc.sc.oblige(ob)
 	}
 }
